@@ -1,3 +1,4 @@
 /- Props/C03.lean — property C03: all theorems live in namespace CM.Props.C03, split over two files. -/
+import CircuitProofs.Props.C03Tie
 import CircuitProofs.Props.C03Closer
 import CircuitProofs.Props.C03Circuit
